@@ -63,6 +63,14 @@ def classify(e: BaseException) -> str:
     return "crash:" + type(e).__name__
 
 
+def margin_conditions(cfg: dict, pj: Proj, c: dict):
+    from basana.backtesting import lending
+    return lending.MarginLoanConditions(
+        interest_symbol=c["isym"], interest_percentage=Decimal(c["pctN"]) * 100 / Decimal(c["pctD"]),
+        interest_period=TICK * c["period"], min_interest=pj.amt(c["isym"], c["minInt"]),
+        margin_requirement=Decimal(c["reqN"]) / Decimal(cfg["reqD"]))
+
+
 def build_exchange(cfg: dict, pj: Proj, max_concurrent: int = 1):
     import basana as bs
     from basana.backtesting import exchange, fees, lending, liquidity
@@ -89,10 +97,7 @@ def build_exchange(cfg: dict, pj: Proj, max_concurrent: int = 1):
         for s in cfg["syms"]:
             c = cfg["cond"][s]
             if c["has"]:
-                lend.set_conditions(s, lending.MarginLoanConditions(
-                    interest_symbol=c["isym"], interest_percentage=Decimal(c["pctN"]) * 100 / Decimal(c["pctD"]),
-                    interest_period=TICK * c["period"], min_interest=pj.amt(c["isym"], c["minInt"]),
-                    margin_requirement=Decimal(c["reqN"]) / Decimal(cfg["reqD"])))
+                lend.set_conditions(s, margin_conditions(cfg, pj, c))
     else:
         lend = lending.NoLoans()
     init = {s: pj.amt(s, cfg["init"][s]) for s in cfg["syms"] if cfg["init"][s] != 0}
@@ -101,11 +106,17 @@ def build_exchange(cfg: dict, pj: Proj, max_concurrent: int = 1):
     for s in cfg["syms"]:
         # precOverride: the configured precision of a symbol that is only borrowed (never traded) may be coarser than the
         # model's units, so that loan amounts finer than the symbol's precision can be expressed
-        ex.set_symbol_precision(s, cfg.get("precOverride", {}).get(s, pj.prec(s)))
+        ex.set_symbol_precision(s, cfg.get("precOverride", {}).get(s, pj.prec(s) - (len(str(cfg.get("istep", {}).get(s, 1))) - 1)))
     pairs = [Pair(p["b"], p["q"]) for p in cfg["pairs"]]
+    if any(v > 1 for v in cfg.get("istep", {}).values()):
+        # the pairs keep the model's precision although their symbols are configured coarser
+        from basana.core.pair import PairInfo
+        for p, pr in zip(cfg["pairs"], pairs):
+            ex.set_pair_info(pr, PairInfo(base_precision=pj.prec(p["b"]), quote_precision=pj.prec(p["q"])))
     # harness knob (DESIGN.md §5 C05): the period of the open-list re-indexing, so that it fires within short histories
     if cfg.get("reindexEvery") and hasattr(ex._order_mgr._orders, "_reindex_every"):
         ex._order_mgr._orders._reindex_every = cfg["reindexEvery"]
+    ex._verif_lending = lend          # the strategy object the caller configured (set_conditions is called on it later)
     return d, ex, pairs
 
 
@@ -276,6 +287,9 @@ async def run_script_async(script: dict) -> dict:
             elif kind == "repay_loan":
                 inv = {v: k2 for k2, v in loan_index.items()}
                 await ex.repay_loan(inv.get(a, uuid.uuid4().hex))
+            elif kind == "set_cond":
+                c = (cfg["condAlt"] if a["which"] == "alt" else cfg["cond"])[a["sym"]]
+                ex._verif_lending.set_conditions(a["sym"], margin_conditions(cfg, pj, c))
             elif kind == "get_open_orders":
                 lst = await ex.get_open_orders()
                 idx = {oid: i + 1 for i, oid in enumerate(order_ids)}
